@@ -9,6 +9,24 @@ sid = sys.argv[1]
 props = sys.argv[2:] or ["C%02d" % i for i in range(1, 21)]
 sdir = os.path.join(VERIF, "seeded", sid)
 patch = os.path.join(sdir, "patch.diff")
+import hashlib, glob
+def norm(path):
+    # the change itself: added/removed lines only (index/hunk headers and context differ between agents)
+    lines = [l for l in open(path) if (l.startswith("+") or l.startswith("-")) and not l.startswith("+++") and not l.startswith("---")]
+    return hashlib.sha256("".join(lines).encode()).hexdigest()
+mine = norm(patch)
+if not sys.argv[2:]:
+    for other in sorted(glob.glob(os.path.join(VERIF, "seeded", "*", "results.json"))):
+        od = os.path.dirname(other)
+        if od != sdir and os.path.exists(os.path.join(od, "patch.diff")) and norm(os.path.join(od, "patch.diff")) == mine:
+            r = json.load(open(other))
+            if r.get("same_change_as"):
+                continue
+            r["seed"] = sid
+            r["same_change_as"] = os.path.basename(od)
+            json.dump(r, open(os.path.join(sdir, "results.json"), "w"), indent=1)
+            print(sid, "is the same source change as", os.path.basename(od), "- results copied; caught by", [p for p, v in r["results"].items() if v["exit"] == 1])
+            sys.exit(0)
 st = subprocess.run(["git", "-C", "/repo", "status", "--porcelain", "--untracked-files=no"], stdout=subprocess.PIPE, text=True).stdout.strip()
 if st:
     print("refusing: /repo has local changes:\n" + st); sys.exit(2)
